@@ -149,8 +149,11 @@ def shared_snapshot():
     import copy
     from msdm.domains.gridworld import mdp as gwm
     from msdm.domains.loadunload import LoadUnload
-    return copy.deepcopy([dict(gwm.TERMINALSTATE), gwm.TERMINALDIST.value, list(LoadUnload.action_list),
-                          list(LoadUnload.observation_list)])
+    def cls_list(name):      # class-level lists (a rewrite may turn them into properties: then nothing is shared)
+        v = LoadUnload.__dict__.get(name)
+        return list(v) if isinstance(v, (list, tuple)) else None
+    return copy.deepcopy([dict(gwm.TERMINALSTATE), getattr(gwm.TERMINALDIST, "value", None), cls_list("action_list"),
+                          cls_list("observation_list")])
 
 
 def one(case, pl):
